@@ -68,7 +68,7 @@ theorem storeEntries_ok (cl clBits : List Nat) (hc : ClCode cl clBits) :
         simp only [e16, ↓reduceIte, writeBits_ok 3 extra _ (h17 rfl) (by omega), Out.bind_ok]
         rw [ih _ (fun e he => hv e (List.mem_cons_of_mem _ he))]
         simp [entryBits]
-      · simp only [e16, e17, ↓reduceIte, Out.bind_ok]
+      · simp only [e16, e17, ↓reduceIte]
         rw [ih _ (fun e he => hv e (List.mem_cons_of_mem _ he))]
         simp [entryBits, e16, e17]
 
